@@ -36,7 +36,7 @@ def population(ctx, flavour):
     # general mix
     return (["-corpus", conf.CORPUS, "-nrand", 24 if q else 220, "-nexpr", 6 if q else 60, "-ndp", 4 if q else 40,
              "-nctx", 8 if q else 80, "-nopt", 4 if q else 40, "-nring", 3 if q else 30, "-small-max", 3, "-small-slices", 400 if q else 40, "-small-slice", s % (400 if q else 40),
-             "-nbig", (1 if q else 5) if ctx.prop in ("C01", "C02", "C06") else 0, "-valued", 60],
+             "-nbig", (1 if q else 5) if ctx.prop in ("C01", "C02", "C06") else 0, "-nlong", 3 if q else 24, "-valued", 60],
             ["-limit", 100 if q else 400, "-nrandom", 24 if q else 100])
 
 
@@ -191,8 +191,9 @@ def run_level(ctx, replay, module, invs, flavour="mix", trace=False, prefix="tra
     viols = violations_of(out, results)
     unconfirmed = 0
     for n, v in enumerate(viols):
-        if v["ords"] is None:
-            rs = input_from_trace(v["shard"], v["l"])
+        if v["ords"] is None or v["l"] >= 2:
+            # the run is identified by the trace line just consumed (l points at the next one)
+            rs = input_from_trace(v["shard"], max(1, v["l"] - 1))
             v["input"], v["ords"], v["variant"] = rs["input"], rs["ords"], rs["variant"]
         key = "%s:%s:%s:%s" % (v["id"], v["inv"], v["variant"], " ".join(v["input"]))
         d = ctx.replay_dir(key)
